@@ -651,6 +651,13 @@ pub fn main(args: &Args) {
         }
         let mut k = only.unwrap_or(shard as u64);
         while k < n || only == Some(k) {
+            // a tree on which most plays violate makes every play wait for its timeouts; the verdict is settled long before
+            // the workload ends, so a shard stops after 60 violating plays instead of running into the driver's watchdog
+            // (which would turn a clear violation into an inconclusive run: seeded C11-L)
+            if only.is_none() && r.violation_instances() >= 60 {
+                r.count("shards_cut_short_after_60_violating_plays", 1);
+                break;
+            }
             let mut rng = Rng::derive(seed, 0x1100_0000 + k);
             let base = gen_script(&mut rng);
             let replay = vec!["c11".to_string(), "--seed".into(), seed.to_string(), "--script".into(), k.to_string()];
